@@ -74,7 +74,7 @@ claim("C19", "other",
       "Decides that each advertised limit equals the largest value its enforcement predicate accepts (name length, transfer size) and that every store to the file size is dominated by a comparison with the advertised maximum. Behaviour at the limit end to end is not decided. Also: request-sized transactions (WRITE, SYMLINK, READ) are bounded by a constant <= wtmax (M6), the refusing side of a length test answers false (M1), and what the server announces gets past the decoder: no codec bound tighter than RFC 1813 (M10). Round 9: allocation refused only by the allocator (M11), the directory-entry codec returns what it read for names of every admitted length (M12).",
       "constant evaluation + normalised comparison agreement + guard dominance", "DESIGN.md section 3 C19")
 claim("C02", "other",
-      "Does NOT decide that replies equal those of a reference file system (a statement about run-time values). Decides structural necessary conditions of it on every path of the current source: (B1) the block-by-block copy loops of Inode.Read and Inode.Write move their cursors together - block index, file position, bytes left / done and source position advance by one per-round count that is min(bytes to the end of the block, bytes left), the loop goes on while bytes are left, the block touched is the one bmap returned for the round and is indexed at position%BlockSize + i, the read result is the in-order append of the rounds; (B2) reply fields come from their source (READ data/count/eof and READLINK target from Inode.Read, WRITE count from Inode.Write; handle and attributes of one reply from one inode object); (B3) the size a write records is start + bytes written, stored only where larger, Resize records the size asked for; and the clauses shared with C04/C08/C09/C12/C13/C19 that state when a request must fail and what a name resolves to (unsupported procedures, EXIST, NOTEMPTY, self-rename, complete name cache, NOENT only from a lookup, READ clamp, stale handles, name and size limits, unlink after name removal, the listing built is the listing returned). Not decided: which bytes a history leaves in a file, error codes among several applicable refusals, eof, timestamps.",
+      "Does NOT decide that replies equal those of a reference file system (a statement about run-time values). Decides structural necessary conditions of it on every path of the current source: (B1) the block-by-block copy loops of Inode.Read and Inode.Write move their cursors together - block index, file position, bytes left / done and source position advance by one per-round count that is min(bytes to the end of the block, bytes left), the loop goes on while bytes are left, the block touched is the one bmap returned for the round and is indexed at position%BlockSize + i, the read result is the in-order append of the rounds; (B2) reply fields come from their source (READ data/count/eof and READLINK target from Inode.Read, WRITE count from Inode.Write; handle and attributes of one reply from one inode object); (B3) the size a write records is start + bytes written, stored only where larger and whenever bytes were copied, Resize records the size asked for; RMDIR removes only directories (B17), reply attributes are taken after the last change (B18), the block map answers from the pointers (B19), an attribute is set from its own selector (B20), RENAME replaces only the same kind (B22); and the clauses shared with C04/C08/C09/C12/C13/C19 that state when a request must fail and what a name resolves to (unsupported procedures, EXIST, NOTEMPTY, self-rename, complete name cache, NOENT only from a lookup, READ clamp, stale handles, name and size limits, unlink after name removal, the listing built is the listing returned). Not decided: which bytes a history leaves in a file, error codes among several applicable refusals, eof, timestamps.",
       "loop-cursor (induction variable) agreement + value provenance + guard dominance over go/ssa", "DESIGN.md section 3 C02")
 
 def main():
